@@ -873,8 +873,8 @@ class CompositeDistribution(_AbstractDistribution):
         splits a vector appropriately for all separate distributions.
         """
 
-        self.lower_bounds = lower_bounds
-        self.upper_bounds = upper_bounds
+        # Validated (and lists turned into columns) as for every other distribution
+        self.update_bounds(lower_bounds, upper_bounds)
 
     def misfit(self, coordinates: _numpy.ndarray) -> float:
         # Split coordinates for all sub-distributions ----------------------------------
@@ -1045,8 +1045,8 @@ class AdditiveDistribution(_AbstractDistribution):
         for i_distribution, distribution in enumerate(self.separate_distributions):
             assert distribution.dimensions == self.dimensions
 
-        self.lower_bounds = lower_bounds
-        self.upper_bounds = upper_bounds
+        # Validated (and lists turned into columns) as for every other distribution
+        self.update_bounds(lower_bounds, upper_bounds)
 
         self.collapse_bounds()
 
